@@ -117,7 +117,7 @@ type Machine struct {
 	resolver RelationsResolver
 	// List of all the registered state names.
 	stateNames       S
-	stateNamesExport S
+	stateNamesExport atomic.Pointer[S]
 	loopLock         sync.Mutex
 	handlers         []*handler
 	handlersMx       sync.RWMutex
@@ -1879,7 +1879,7 @@ func (m *Machine) verifyStates(states S) error {
 
 	// memorize the state names order
 	m.stateNames = slicesUniq(states)
-	m.stateNamesExport = nil
+	m.stateNamesExport.Store(nil)
 	m.statesVerified.Store(true)
 
 	// tracers
@@ -3160,11 +3160,14 @@ func (m *Machine) StateNames() S {
 	m.schemaMx.RLock()
 	defer m.schemaMx.RUnlock()
 
-	if m.stateNamesExport == nil {
-		m.stateNamesExport = slices.Clone(m.stateNames)
+	// built lazily, possibly by several first callers at once (read lock)
+	if exp := m.stateNamesExport.Load(); exp != nil {
+		return *exp
 	}
+	exp := slices.Clone(m.stateNames)
+	m.stateNamesExport.Store(&exp)
 
-	return m.stateNamesExport
+	return exp
 }
 
 // Queue returns a copy of the currently active states.
@@ -3433,7 +3436,7 @@ func (m *Machine) Import(data *Serialized) error {
 
 	// restore ID and state names
 	m.stateNames = data.StateNames
-	m.stateNamesExport = nil
+	m.stateNamesExport.Store(nil)
 	m.statesVerified.Store(true)
 	m.machineTick = data.MachineTick + 1
 
